@@ -273,4 +273,102 @@ int cmdEdits(int argc, char** argv) {
 	return 0;
 }
 Reg r1("c07-edits", cmdEdits);
+
+// ---- the header string table as a machine of its own (StringTable.tla): cases of StringTableMC on a real NiHeader
+// state: the table, (index, text) of every string reference in block order, the maximum length the header would write
+std::string stringState(NifFile& nif, const std::vector<NiNode*>& nodes, bool old) {
+	auto& hdr = nif.GetHeader();
+	JArr tab, refs;
+	for (uint32_t i = 0; i < hdr.GetStringCount(); i++) tab.add(hdr.GetStringById(i));
+	for (auto n : nodes) {
+		JObj r;
+		uint32_t ix = n->name.GetIndex();
+		r.add("idx", ix == NIF_NPOS ? -1LL : (long long) std::min<uint32_t>(ix, 0x7ffffff0u)).add("str", n->name.get());
+		refs.add(r);
+	}
+	long long maxLen = 0;
+	if (!old) {
+		// (the stored maximum has no accessor: it is read from the header as it would be written)
+		std::ostringstream os(std::ios::binary);
+		NiOStream ns(&os, &hdr);
+		hdr.Put(ns);
+		HeaderInfo h = parseHeader(os.str() + std::string(64, '\0'));
+		maxLen = h.ok ? (long long) h.maxLen : -1;
+	}
+	JObj st;
+	st.add("tab", tab).add("refs", refs).add("maxLen", maxLen);
+	return st.done();
+}
+
+int cmdStrings(int argc, char** argv) {
+	if (argc < 3) return 2;
+	auto lines = readLines(argv[1]);
+	std::string outPath = argv[2];
+	{ Out trunc(outPath); }
+	size_t chunk = 500, nchunks = (lines.size() + chunk - 1) / chunk;
+	size_t crashes = runForkedCases(
+		nchunks, outPath, 120,
+		[&](size_t ci, std::string& out) {
+			for (size_t k = ci * chunk; k < std::min(lines.size(), (ci + 1) * chunk); k++) {
+				JV rec = jparse(lines[k]);
+				const JV& c = rec["c"];
+				bool old = c["old"].b;
+				NifFile nif;
+				nif.Create(old ? NiVersion::getOB() : NiVersion::getSSE());
+				auto& hdr = nif.GetHeader();
+				std::vector<NiNode*> nodes;
+				nodes.push_back(nif.GetRootNode());
+				for (size_t r = 1; r < c["idx"].a.size(); r++) {
+					auto n = std::make_unique<NiNode>();
+					NiNode* raw = n.get();
+					hdr.AddBlock(std::move(n));
+					nodes.push_back(raw);
+				}
+				if (!nodes[0]) continue;
+				// the file as stored: table (texts may repeat) and indices; the references hold no text yet
+				hdr.ClearStrings();
+				for (size_t t = 0; t < c["tab"].a.size(); t++) hdr.AddOrFindStringId("#placeholder" + std::to_string(t), true);
+				for (size_t t = 0; t < c["tab"].a.size(); t++) hdr.SetStringById(uint32_t(t), c["tab"].a[t].s);
+				hdr.UpdateMaxStringLength();
+				for (size_t r = 0; r < nodes.size(); r++) {
+					long long ix = (long long) c["idx"].a[r].n;
+					nodes[r]->name.SetIndex(ix < 0 ? NIF_NPOS : uint32_t(ix));
+					nodes[r]->name.get().clear();
+				}
+				hdr.FillStringRefs();
+				JObj ev;
+				ev.add("e", "strings").raw("c", toJson(c)).raw("start", stringState(nif, nodes, old));
+				JArr states, again;
+				for (auto& op : c["ops"].a) {
+					const std::string kd = op["k"].s;
+					if (kd == "set") nodes[size_t(op["r"].n) - 1]->name.get() = op["s"].s;
+					else if (kd == "new") {
+						nodes[size_t(op["r"].n) - 1]->name.SetIndex(NIF_NPOS);
+						nodes[size_t(op["r"].n) - 1]->name.get() = op["s"].s;
+					}
+					else if (kd == "add") hdr.AddOrFindStringId(op["s"].s, op["e"].b);
+					else if (kd == "save") hdr.UpdateHeaderStrings(op["unk"].b);
+					else if (kd == "fill") hdr.FillStringRefs();
+					std::string st = stringState(nif, nodes, old);
+					states.raw(st);
+					if (kd == "save") {
+						// a second save in a row, on a copy of the model (the history goes on from the first)
+						NifFile copy(nif);
+						std::vector<NiNode*> cn;
+						for (auto n : nodes) cn.push_back(copy.GetHeader().GetBlock<NiNode>(nif.GetBlockID(n)));
+						copy.GetHeader().UpdateHeaderStrings(op["unk"].b);
+						again.raw(stringState(copy, cn, old));
+					}
+					else
+						again.raw(st);
+				}
+				ev.raw("states", states.done()).raw("again", again.done());
+				out += ev.done() + "\n";
+			}
+		},
+		[&](size_t ci, const std::string& why, FILE* out) { fprintf(out, "{\"e\":\"crash\",\"chunk\":%zu,\"why\":%s}\n", ci, J::str(why).s.c_str()); });
+	printf("{\"cases\":%zu,\"crashes\":%zu}\n", lines.size(), crashes);
+	return 0;
+}
+Reg r2("c07-strings", cmdStrings);
 } // namespace
